@@ -50,18 +50,20 @@ class ImputerProxy:
 
 
 class RoundRobinImputer:
-    """A contract-abiding custom imputer (C06 clauses): replaces exactly the subset with the values of
-    one stored observation, chosen round-robin; empty subset -> unperturbed prediction."""
+    """A contract-abiding custom imputer (C06 clauses): replaces exactly the subset with the values of one stored
+    observation; empty subset -> unperturbed prediction.  Stateless: the row is a deterministic function of the
+    instance, the subset and the sample index (no hidden counter that a failed call could advance)."""
 
     def __init__(self, model, storage):
-        self.model, self.storage, self.k = model, storage, 0
+        self.model, self.storage = model, storage
 
     def impute(self, feature_subset, x_i, n_samples=1):
+        from .probes import h, canon
         out = []
-        for _ in range(n_samples):
+        sub = sorted(map(repr, feature_subset))
+        for i in range(n_samples):
             rows = list(self.storage.get_data()[0])
-            row = rows[self.k % len(rows)]
-            self.k += 1
+            row = rows[h("rr", canon(x_i), tuple(sub), i) % len(rows)]
             out.append(self.model({**x_i, **{f: row[f] for f in feature_subset}}))
         return out
 
